@@ -402,7 +402,7 @@ class Decimal(Element):
         #  Rewrite ``self.scale`` from # of digits to a ``decimal.Decimal`` instance
         #  That can be directly fed into ``decimal.Decimal.quantize()``
         if self.scale is not None:
-            self.scale = decimal.Decimal(f"0.{'0' * (self.scale - 1)}1")
+            self.scale = decimal.Decimal(1).scaleb(-self.scale)
 
     @singledispatchmethod
     def convert(self, value):
